@@ -19,11 +19,13 @@ import (
 	"crypto/sha1"
 	"encoding/hex"
 	"encoding/json"
+	"errors"
 	"fmt"
 	"os"
 	"sort"
 	"strconv"
 	"sync"
+	"sync/atomic"
 	"time"
 
 	bleve "github.com/blevesearch/bleve/v2"
@@ -225,9 +227,33 @@ func digest(v any) string {
 }
 
 // answers runs the battery and renders records for TraceLayout.
+// stuckSearches counts requests that did not come back; after a few of them the rest of the
+// run only collects what it has (every stuck search keeps a core busy).
+var stuckSearches int64
+
+// poisoned: indexes with a search that never came back; Close would wait for it for ever
+var poisoned sync.Map
+
+var errStuck = errors.New("a search did not come back")
+var stuckMu sync.Mutex
+var stuckByH = map[int][]any{}
+
+func closeIdx(idx bleve.Index) error {
+	if idx == nil {
+		return nil
+	}
+	if _, bad := poisoned.Load(idx); bad {
+		return nil
+	}
+	return idx.Close()
+}
+
 func answers(idx bleve.Index, h int, layout string) ([]any, error) {
 	var out []any
 	for i, rq := range battery() {
+		if atomic.LoadInt64(&stuckSearches) >= 3 {
+			return out, nil
+		}
 		var res *bleve.SearchResult
 		var err error
 		done := make(chan struct{})
@@ -237,13 +263,17 @@ func answers(idx bleve.Index, h int, layout string) ([]any, error) {
 		}()
 		select {
 		case <-done:
-		case <-time.After(90 * time.Second):
+		case <-time.After(60 * time.Second):
+			atomic.AddInt64(&stuckSearches, 1)
+			poisoned.Store(idx, true)
+			stuckMu.Lock()
+			stuckByH[h] = append(stuckByH[h], map[string]any{"h": h, "layout": layout, "req": i, "reqname": rq.Name, "ids": []any{"<no answer in 60 s>"}, "scores": []any{},
+				"total": -2, "extras": []any{}, "facets": "", "maxscore": ""})
+			stuckMu.Unlock()
+			return nil, errStuck // the layout stops here: closing or reopening this index would wait for ever
 			// a request that does not come back on this layout (it answers in milliseconds on the
 			// others): that is its answer here; the remaining requests of this layout are skipped
 			// because the stuck search keeps running
-			out = append(out, map[string]any{"h": h, "layout": layout, "req": i, "reqname": rq.Name, "ids": []any{"<no answer in 90 s>"}, "scores": []any{},
-				"total": -2, "extras": []any{}, "facets": "", "maxscore": ""})
-			return out, nil
 		}
 		if err != nil {
 			// a request that fails on this layout: that IS its answer here (compared
@@ -289,7 +319,7 @@ func memLayout(name string, regroup func(h history) [][]call) layout {
 		if err != nil {
 			return nil, err
 		}
-		defer idx.Close()
+		defer closeIdx(idx)
 		for _, cs := range regroup(h) {
 			if err := applyBatch(idx, cs); err != nil {
 				return nil, err
@@ -350,7 +380,7 @@ func diskLayout(prefix string, cfg bx.Config) layout {
 		}
 		defer func() {
 			if idx != nil {
-				_ = idx.Close()
+				_ = closeIdx(idx)
 			}
 		}()
 		for _, cs := range h.Acts {
@@ -380,7 +410,7 @@ func diskLayout(prefix string, cfg bx.Config) layout {
 		}
 		out = append(out, a...)
 		bx.WaitPersisted(sc, 30*time.Second)
-		if err := idx.Close(); err != nil {
+		if err := closeIdx(idx); err != nil {
 			return nil, err
 		}
 		idx, err = cfg.Reopen(dir)
@@ -459,7 +489,7 @@ func noMergeLayout() layout {
 		}
 		defer func() {
 			if idx != nil {
-				_ = idx.Close()
+				_ = closeIdx(idx)
 			}
 		}()
 		// group the history into batches of several documents so that file
@@ -476,7 +506,7 @@ func noMergeLayout() layout {
 		if err != nil {
 			return nil, err
 		}
-		if err := idx.Close(); err != nil {
+		if err := closeIdx(idx); err != nil {
 			return nil, err
 		}
 		idx, err = bleve.OpenUsing(filepath.Join(dir, "idx"), map[string]interface{}{"eventCallbackName": "verif-veto-merge"})
@@ -502,7 +532,7 @@ func midMergeLayout() layout {
 		if err != nil {
 			return nil, err
 		}
-		defer idx.Close()
+		defer closeIdx(idx)
 		acts := oneCallPerBatch(h)
 		for i, cs := range acts {
 			if err := applyBatch(idx, cs); err != nil {
@@ -569,6 +599,13 @@ func run(c *core.Ctx) error {
 			defer wg.Done()
 			for j := range jobs {
 				recs, err := ls[j.li].Run(c, hs[j.hi])
+				if errors.Is(err, errStuck) {
+					// the layout was abandoned at a search that never came back: that answer is judged
+					stuckMu.Lock()
+					recs, err = stuckByH[hs[j.hi].ID], nil
+					delete(stuckByH, hs[j.hi].ID)
+					stuckMu.Unlock()
+				}
 				mu.Lock()
 				if err != nil && firstErr == nil {
 					firstErr = fmt.Errorf("history %d layout %s: %v", hs[j.hi].ID, ls[j.li].Name, err)
